@@ -17,7 +17,7 @@ type raceReport struct {
 	Sdfx  bool // an sdfx frame takes part in one of the racing stacks
 }
 
-var raceFnRe = regexp.MustCompile(`^\s+((?:github\.com/deadsy/sdfx|main)[^\s(]*)\(`)
+var raceFnRe = regexp.MustCompile(`^\s+((?:github\.com/deadsy/sdfx|main)\S*)\(\S*\)\s*$`)
 
 func parseRaces(out string) []raceReport {
 	parts := strings.Split(out, "WARNING: DATA RACE")
